@@ -26,8 +26,11 @@ Decided
                   verified on both sides): dynamics evaluation forward <-> mj_forward / mj_forwardSkip(skipstage NONE),
                   activation update _next_activation <-> mj_nextActivation, position integration _integrate_pos <->
                   mj_integratePos[Ind].  Drivers: step <-> mj_step with opt.integrator fixed to each IntegratorType member
-                  (the C enumerator is the one R-XLANG-MIRROR binds it to), and the integrator itself = the one function
-                  each driver calls for that member and for no other (derived, not tabulated).
+                  (the C enumerator is the one R-XLANG-MIRROR binds it to), and the integrator itself = the outermost
+                  function each driver evaluates (directly or through a dispatch helper) for that member and for no other
+                  (derived, not tabulated; no unique one is an ANALYSIS-ERROR).  Role evidence and the discovery of the
+                  ball-row builder follow module-level helpers: a function reads F / handles X if it or a helper it uses
+                  does.  The instance floor is derived from the pairing (3 pairs + 5 per accepted member).
                   MJX side (sa/pydep.py, explicit data flow over the ast: closures, scan carries, tree_map, dispatch
                   tables, .replace records): the result of primitive P reaches an input of primitive Q.  C side (clang
                   IR, same-TU callees inlined, other callees summarised by the primitives they can reach in the whole-
@@ -1037,22 +1040,34 @@ FEED_DRIVER = ("step", "mj_step", "IntegratorType", ("opt", "integrator"),
                "one simulation step: the dynamics evaluation followed by the integrator selected by opt.integrator")
 
 
-def _py_tokens(fn):
-    """(attribute names read, {(Class, MEMBER)} spelled, callee names) of a Python function, nested defs included."""
+def _py_tokens(fn, helpers=None, depth=3):
+    """(attribute names read, {(Class, MEMBER)} spelled, callee names) of a Python function, nested defs included.  With
+    `helpers` ({name: FunctionDef} of the module) the module-level functions it names (called, or handed on as a value:
+    functools.partial(helper, ...), scan.flat(m, helper, ...)) are followed: a function reads F / handles X if it or a
+    helper it uses does."""
     attrs, enums, callees = set(), set(), set()
-    for n in ast.walk(fn):
-        if isinstance(n, ast.Attribute):
-            attrs.add(n.attr)
-            c = chain(n)
-            if c and len(c[1]) >= 1:
-                full = [c[0]] + c[1]
-                if len(full) >= 2 and full[-2][:1].isupper():
-                    enums.add((full[-2], full[-1]))
-        if isinstance(n, ast.Call):
-            if isinstance(n.func, ast.Name):
-                callees.add(n.func.id)
-            elif isinstance(n.func, ast.Attribute):
-                callees.add(n.func.attr)
+    seen, todo = set(), [(fn, 0)]
+    while todo:
+        f, dpt = todo.pop()
+        if id(f) in seen:
+            continue
+        seen.add(id(f))
+        for n in ast.walk(f):
+            if isinstance(n, ast.Attribute):
+                attrs.add(n.attr)
+                c = chain(n)
+                if c and len(c[1]) >= 1:
+                    full = [c[0]] + c[1]
+                    if len(full) >= 2 and full[-2][:1].isupper():
+                        enums.add((full[-2], full[-1]))
+            if isinstance(n, ast.Call):
+                if isinstance(n.func, ast.Name):
+                    callees.add(n.func.id)
+                elif isinstance(n.func, ast.Attribute):
+                    callees.add(n.func.attr)
+            if helpers and dpt < depth and isinstance(n, ast.Name) and isinstance(n.ctx, ast.Load) and n.id in helpers \
+                    and helpers[n.id] is not f:
+                todo.append((helpers[n.id], dpt + 1))
     return attrs, enums, callees
 
 
@@ -1390,8 +1405,7 @@ class CFeed:
             if name in self.stack or len(self.stack) > 12:
                 return
             self.inlined.add(name)
-            if len(self.stack) == 1:
-                self.direct.add(name)
+            self.direct.add((self.stack[-1], name))
             self.stack.append(name)
             try:
                 self.stmt(cir.body(fn))
@@ -1442,7 +1456,7 @@ def _feed_roles(res, sources, classes, units, rule):
         unit = next((u for u in units if all(c in u.funcs for c in cnames)), None)
         if unit is None:
             raise AnalysisError(f"anchor vanished: {'/'.join(cnames)} (mirror of {pyname}: {why})")
-        pa, pe, pc = _py_tokens(pyf[pyname])
+        pa, pe, pc = _py_tokens(pyf[pyname], helpers=pyf)
         cm, ce, cc = _c_tokens(unit, cnames)
         for ev in evidence:
             if ev[0] == "fields":
@@ -1499,7 +1513,7 @@ def _mjx_feed(interp, pydep, fname, eclass, subject, member, rel):
             owner, line, _omod = interp.owner_of(ev)
             flows.setdefault((p, ev["tag"]), []).append((owner, line, sorted(fields.get(p, ()))))
     weak -= set(flows)
-    direct = {name for caller, mod, name, _n in interp.entered if caller == fname and mod == FWD_PY and name != fname}
+    direct = {(caller, name) for caller, mod, name, _n in interp.entered if mod == FWD_PY and name != fname}
     return {"ret": ret, "flows": flows, "weak": weak, "direct": direct, "events": len(interp.events),
             "tags": {ev["tag"] for ev in interp.events}}
 
@@ -1508,7 +1522,8 @@ def check_feed(res, H, sources, classes, mir, repo):
     rule = "R-XLANG-FEED"
     res.rule(rule, "inside one step and inside each integrator: a result of a mirrored primitive (activation update, position "
              "integration, dynamics evaluation) feeds another one in MJX only if the C engine can run them in that order; "
-             "the act / qpos of the returned state come from the primitives that produce d->act / d->qpos in C", floor=28)
+             "the act / qpos of the returned state come from the primitives that produce d->act / d->qpos in C",
+             floor=len(FEED_PRIMS))
     from .. import callgraph, engine, pydep
     pyname, cname, eclass, subject, why = FEED_DRIVER
     uf, us = engine.unit(FWD_C, repo), engine.unit(SUP_C, repo)
@@ -1585,14 +1600,24 @@ def check_feed(res, H, sources, classes, mir, repo):
         step_cf[member] = c_feed(cname, cenumerator)
         if not step_cf[member].decided:
             raise AnalysisError(f"{FWD_C}: {cname} no longer dispatches on m->{subject[0]}.{subject[1]}")
+    def specific_roots(per_key):
+        """per_key: {key: {(caller, callee)}}.  For each key the functions evaluated for that key only, reduced to those not
+        called from another such function: what the driver (or a dispatch helper of it) calls because of the key."""
+        names = {k: {c for _caller, c in v} for k, v in per_key.items()}
+        common = set.intersection(*names.values()) if names else set()
+        out = {}
+        for k, v in per_key.items():
+            spec = names[k] - common
+            out[k] = sorted(c for c in spec if not any(caller in spec and caller != c for caller, c2 in v if c2 == c))
+        return out
     c_direct = {}
     for en in H.enumerators(cenum[0]):
         mirrored = next((m_ for m_, (_e, c_, _l) in ec["members"].items() if c_ == en), None)
         cf = step_cf[mirrored] if mirrored else CFeed(uf, graph, c_anchors, subject).run(cname, en)
         c_direct[en] = set(cf.direct)
-    c_common = set.intersection(*c_direct.values()) if c_direct else set()
+    c_roots = specific_roots(c_direct)
     live = [m_ for m_ in step_mj if step_mj[m_]["events"]]
-    p_common = set.intersection(*[step_mj[m_]["direct"] for m_ in live]) if live else set()
+    p_roots = specific_roots({m_: step_mj[m_]["direct"] for m_ in live})
     for member, (_e, cenumerator, _line) in sorted(ec["members"].items()):
         mj, cf = step_mj[member], step_cf[member]
         if not mj["events"]:
@@ -1600,15 +1625,15 @@ def check_feed(res, H, sources, classes, mir, repo):
             continue
         summary[member] = {"step": compare(member, pyname, pyname, cname, mj, cf)}
         # level 2: the integrator = what the driver calls only for this member, on both sides
-        pint = sorted(mj["direct"] - p_common)
-        cint = sorted(c_direct[cenumerator] - c_common)
+        pint, cint = p_roots[member], c_roots[cenumerator]
         if len(pint) != 1 or len(cint) != 1:
-            summary[member]["integrator"] = {"not_decided": f"no unique member-specific callee (MJX {pint}, C {cint})"}
-            continue
+            raise AnalysisError(f"{rel} / {FWD_C}: no unique function that {pyname} / {cname} evaluate for {eclass}.{member} / "
+                                f"{cenumerator} only (MJX {pint}, C {cint}): the integrator pair cannot be derived")
         imj = _mjx_feed(interp, pydep, pint[0], eclass, subject, member, rel)
         icf = c_feed(cint[0], cenumerator)
         res.ok(rule, f"pair:{eclass}.{member}:{pint[0]}<->{cint[0]}",
-               {"derived": f"the only function {pyname} / {cname} call for this member and for no other"})
+               {"derived": f"the outermost function {pyname} / {cname} evaluate (directly or through a dispatch helper) for "
+                           f"this member and for no other"})
         summary[member]["integrator"] = compare(member, pint[0], pint[0], cint[0], imj, icf)
     for ckey, b in sorted(bad.items()):
         mem = ", ".join(f"{eclass}.{x}" for x in b["members"])
@@ -1625,6 +1650,8 @@ def check_feed(res, H, sources, classes, mir, repo):
                     f"with {mem}: the {b['field']} of the state returned by {b['pfn']} does not come from {pyfun[b['tag']]} "
                     f"(it depends on {b['got'] or 'inputs only'}); the C engine ({b['cfn']}) produces d->{b['field']} with "
                     f"{FEED_PRIMS[b['tag']][1][0]} ({FWD_C}:{b['cline']}): {FEED_PRIMS[b['tag']][2]}")
+    # expected instances: 3 primitive pairs + per accepted member the integrator pair and 2 produced fields at 2 levels
+    res.rule(rule, "", floor=len(FEED_PRIMS) + 5 * len(live))
     if cannot and not bad:
         # a definite mismatch is reported as such; without one, a side that lost a primitive cannot be judged
         raise AnalysisError(cannot[0] + (f" (+{len(cannot) - 1} more)" if len(cannot) > 1 else ""))
@@ -1898,13 +1925,20 @@ def check_cover(res, H, sources, classes, repo):
     mem = (classes.get("JointType") or {}).get("members", {}).get("BALL")
     if mem is None or mem[1] != "mjJNT_BALL":
         raise AnalysisError(f"{MJX}/types.py: anchor vanished: JointType.BALL = mujoco.mjtJoint.mjJNT_BALL")
+    confs = functions(con)
     cands = []
-    for name, fn in functions(con).items():
-        attrs, enums, _callees = _py_tokens(fn)
-        if ("JointType", "BALL") in enums and "jnt_range" in attrs:
+    for name, fn in confs.items():
+        _a, own_enums, _c = _py_tokens(fn)
+        attrs, _e, _c2 = _py_tokens(fn, helpers=confs)
+        # the function itself selects JointType.BALL; jnt_range may be gathered by a helper it uses
+        if ("JointType", "BALL") in own_enums and "jnt_range" in attrs:
             cands.append(name)
+    # a caller of the row builder is not the row builder
+    uses = {name: {n.id for n in ast.walk(confs[name]) if isinstance(n, ast.Name) and isinstance(n.ctx, ast.Load)} for name in cands}
+    cands = [c for c in cands if not any(o != c and o in uses[c] for o in cands)]
     if len(cands) != 1:
-        raise AnalysisError(f"{rel}: expected one function building limit rows for JointType.BALL (reads jnt_range), found {cands}")
+        raise AnalysisError(f"{rel}: expected one function building limit rows for JointType.BALL (reads jnt_range, itself or "
+                            f"through a helper), found {cands}")
     fname = cands[0]
     state = {"reads": 0, "other": []}
 
@@ -1937,7 +1971,7 @@ def check_cover(res, H, sources, classes, repo):
     interp = pydep.Interp(mods, {CON_PY, "math"}, {}, drop_masks=True, subscript_hook=hook, external_hook=xhook,
                           label=f"{MJX}/")
     ret = interp.run(CON_PY, fname, [pydep.D(frozenset({("in", "m")})), pydep.D(frozenset({("in", "d")}))])
-    line = functions(con)[fname].lineno
+    line = confs[fname].lineno
     if not state["reads"]:
         raise AnalysisError(f"{rel}:{line}: {fname}: no read of the joint quaternion as four consecutive qpos entries "
                             f"(`d.qpos[arange(4) + adr]` / `d.qpos[adr:adr + 4]`) is recognised (other qpos reads at lines "
@@ -2024,6 +2058,64 @@ MUTANTS = [
                 "// Runge Kutta explicit order-N integrator\n"),
                (FWD_C, "    mj_forwardSkip(m, d, mjSTAGE_NONE, 1);  // 1: do not recompute sensors and energy\n",
                 "    rkEvaluate(m, d);\n")]},
+    # stored refactor shapes H-p1 / H-p4 / H-p5: dispatch, role and row helpers at module level
+    {"id": "feed-ctl-dispatch-helper", "expect": None,
+     "edits": [(_FW, "  if m.opt.integrator == IntegratorType.EULER:\n    d = euler(m, d)\n  elif m.opt.integrator == IntegratorType.RK4:\n"
+                     "    d = rungekutta4(m, d)\n  elif m.opt.integrator == IntegratorType.IMPLICITFAST:\n    d = implicit(m, d)\n  else:\n"
+                     "    raise NotImplementedError(f'integrator {m.opt.integrator} not implemented.')\n\n  return d\n",
+                "  return _integrate(m, d)\n"),
+               (_FW, "@named_scope\ndef forward(m: Model, d: Data) -> Data:\n",
+                "def _integrate(m: Model, d: Data) -> Data:\n  integrator = m.opt.integrator\n  if integrator == IntegratorType.EULER:\n"
+                "    return euler(m, d)\n  if integrator == IntegratorType.RK4:\n    return rungekutta4(m, d)\n"
+                "  if integrator == IntegratorType.IMPLICITFAST:\n    return implicit(m, d)\n"
+                "  raise NotImplementedError(f'integrator {integrator} not implemented.')\n\n\n"
+                "@named_scope\ndef forward(m: Model, d: Data) -> Data:\n")]},
+    {"id": "feed-ctl-role-helper", "expect": None,
+     "edits": [(_FW, "  def fn(dyntype, dynprm, act, act_dot, actrange):\n    if dyntype == DynType.FILTEREXACT:\n"
+                     "      tau = jp.clip(dynprm[0], min=mujoco.mjMINVAL)\n      act = act + act_dot * tau * (1 - jp.exp(-m.opt.timestep / tau))\n"
+                     "    else:\n      act = act + act_dot * m.opt.timestep\n    act = jp.clip(act, actrange[0], actrange[1])\n    return act\n\n",
+                "  fn = functools.partial(_integrate_act, m.opt.timestep)\n\n"),
+               (_FW, "def _next_activation(m: Model, d: Data, act_dot: jax.Array) -> jax.Array:\n",
+                "def _integrate_act(timestep, dyntype, dynprm, act, act_dot, actrange):\n  if dyntype == DynType.FILTEREXACT:\n"
+                "    tau = jp.clip(dynprm[0], min=mujoco.mjMINVAL)\n    act_delta = act_dot * tau * (1 - jp.exp(-timestep / tau))\n"
+                "  else:\n    act_delta = act_dot * timestep\n  return jp.clip(act + act_delta, actrange[0], actrange[1])\n\n\n"
+                "def _next_activation(m: Model, d: Data, act_dot: jax.Array) -> jax.Array:\n"),
+               (_FW, "  qvel = d.qvel if qvel is None else qvel\n  integrate_fn = lambda *args: _integrate_pos(*args, dt=m.opt.timestep)\n"
+                     "  qpos = scan.flat(m, integrate_fn, 'jqv', 'q', m.jnt_type, d.qpos, qvel)\n\n  # advance time\n",
+                "  if qvel is None:\n    qvel = d.qvel\n  integrate_fn = functools.partial(_integrate_pos, dt=m.opt.timestep)\n"
+                "  qpos = scan.flat(m, integrate_fn, 'jqv', 'q', m.jnt_type, d.qpos, qvel)\n\n  # advance time\n")]},
+    {"id": "cover-ctl-row-helpers", "expect": None,
+     "edits": [(_CO, "def _efc_limit_ball(m: Model, d: Data) -> Optional[_Efc]:\n",
+                "def _jnt_limit_args(m, jnt_id):\n  args = (m.jnt_qposadr, m.jnt_dofadr, m.jnt_range, m.jnt_margin, m.jnt_solref, m.jnt_solimp)\n"
+                "  return jax.tree_util.tree_map(lambda x: x[jnt_id], args)\n\n\n"
+                "def _jnt_limit_row(m, j, pos, dofadr, margin, solref, solimp):\n  active = pos < 0\n  invweight = m.dof_invweight0[dofadr]\n"
+                "  zero = jp.zeros_like(pos)\n  return _row(j * active, pos * active, pos, invweight, solref, solimp, margin, zero)\n\n\n"
+                "def _efc_limit_ball(m: Model, d: Data) -> Optional[_Efc]:\n"),
+               (_CO, "    pos = jp.amax(jnt_range) - angle - jnt_margin\n    active = pos < 0\n"
+                     "    j = jp.zeros(m.nv).at[jp.arange(3) + dofadr].set(-axis)\n    invweight = m.dof_invweight0[dofadr]\n"
+                     "    z = jp.zeros_like(pos)\n\n    return _row(\n        j * active, pos * active, pos, invweight, solref, solimp, jnt_margin, z\n    )\n\n"
+                     "  args = (m.jnt_qposadr, m.jnt_dofadr, m.jnt_range, m.jnt_margin, m.jnt_solref)\n  args += (m.jnt_solimp,)\n"
+                     "  args = jax.tree_util.tree_map(lambda x: x[jnt_id], args)\n\n  return rows(*args)\n",
+                "    pos = jp.amax(jnt_range) - angle - jnt_margin\n    j = jp.zeros(m.nv).at[jp.arange(3) + dofadr].set(-axis)\n\n"
+                "    return _jnt_limit_row(m, j, pos, dofadr, jnt_margin, solref, solimp)\n\n  return rows(*_jnt_limit_args(m, jnt_id))\n")]},
+    # the stored ball seed on top of the row-helper layout still fires
+    {"id": "cover-ball-no-renormalise-row-helper", "expect": ("R-XLANG-COVER", "_efc_limit_ball:J<-qpos.w"),
+     "edits": [(_CO, "def _efc_limit_ball(m: Model, d: Data) -> Optional[_Efc]:\n",
+                "def _jnt_limit_row(m, j, pos, dofadr, margin, solref, solimp):\n  active = pos < 0\n  invweight = m.dof_invweight0[dofadr]\n"
+                "  zero = jp.zeros_like(pos)\n  return _row(j * active, pos * active, pos, invweight, solref, solimp, margin, zero)\n\n\n"
+                "def _efc_limit_ball(m: Model, d: Data) -> Optional[_Efc]:\n"),
+               (_CO, _BALL_NORM + "    pos = jp.amax(jnt_range) - angle - jnt_margin\n    active = pos < 0\n"
+                     "    j = jp.zeros(m.nv).at[jp.arange(3) + dofadr].set(-axis)\n    invweight = m.dof_invweight0[dofadr]\n"
+                     "    z = jp.zeros_like(pos)\n\n    return _row(\n        j * active, pos * active, pos, invweight, solref, solimp, jnt_margin, z\n    )\n",
+                "    pos = jp.amax(jnt_range) - jp.abs(angle) - jnt_margin\n    j = jp.zeros(m.nv).at[jp.arange(3) + dofadr].set(-axis)\n\n"
+                "    return _jnt_limit_row(m, j, pos, dofadr, jnt_margin, solref, solimp)\n")]},
+    # the stored RK seed on top of the dispatch-helper layout still fires
+    {"id": "feed-rk-stage-clamp-dispatch-helper", "expect": ("R-XLANG-FEED", "rungekutta4:_next_activation->forward"),
+     "edits": [(_FW, "    kact = d0.act + dact_dot * m.opt.timestep\n", "    kact = _next_activation(m, d0, dact_dot)\n"),
+               (_FW, "  elif m.opt.integrator == IntegratorType.RK4:\n    d = rungekutta4(m, d)\n",
+                "  elif m.opt.integrator == IntegratorType.RK4:\n    d = _run_rk4(m, d)\n"),
+               (_FW, "@named_scope\ndef forward(m: Model, d: Data) -> Data:\n",
+                "def _run_rk4(m: Model, d: Data) -> Data:\n  return rungekutta4(m, d)\n\n\n@named_scope\ndef forward(m: Model, d: Data) -> Data:\n")]},
     # R-XLANG-COVER: the renormalisation of axis*angle dropped (stored seed C43-ball-limit-double-cover)
     {"id": "cover-ball-no-renormalise", "expect": ("R-XLANG-COVER", "_efc_limit_ball:J<-qpos.w"), "edits": _SEED_BALL},
     # the same with the activity factor applied through where(active, j, 0)
